@@ -65,6 +65,26 @@ theorem C19_refines_cursor (c : Cfg) (hv : c.Valid) (sc : Scanner σ) (prog : Li
   obtain ⟨cu, hj, hs⟩ := runProg_sim hv sc prog (sim_init c)
   exact ⟨cu, hj, hs.pos_eq, hs.past_iff, hs.end_of⟩
 
+/-- **C19_bytes_in_order**: "nothing lost, nothing delivered twice" spelled out for a binary stream.
+    Whatever else the queries do in between (peeks, property queries, character or term goals that
+    raise their type error, reads at and past the end, errors that end a conjunction), the bytes
+    handed out by the `get_byte` goals are, in program order, exactly the first bytes of the source —
+    as many as `position` says. -/
+theorem C19_bytes_in_order (c : Cfg) (hv : c.Valid) (hb : c.typ = .binary) (sc : Scanner σ)
+    (prog : List (List Op)) :
+    gotBytes prog (runProg c sc prog Stream.init).1 =
+      c.src.take (gotBytes prog (runProg c sc prog Stream.init).1).length ∧
+    (runProg c sc prog Stream.init).2.position =
+      ((gotBytes prog (runProg c sc prog Stream.init).1).length : Int) := by
+  obtain ⟨cu, hj, hs⟩ := runProg_sim hv sc prog (sim_init c)
+  obtain ⟨_, hgot⟩ := judge_bytes c.spec hb sc prog _ {} cu hj
+  have hle := hs.idx_le
+  have hlen : (gotBytes prog (runProg c sc prog Stream.init).1).length = cu.idx := by
+    rw [hgot]; simp [Cfg.spec]; omega
+  constructor
+  · rw [hlen]; rw [hgot]; simp [Cfg.spec]
+  · rw [hlen]; exact hs.pos_eq
+
 /-- **C19_reachable_sim**: every reachable stream is in the simulation relation with some cursor of the
     specification (the invariant behind the theorems below) -/
 theorem C19_reachable_sim {c : Cfg} (hv : c.Valid) {sc : Scanner σ} {s : Stream} (h : Reachable c sc s) :
